@@ -179,7 +179,10 @@ fn build(kind: u8, mut raw: Vec<RawNode>, a: GlobalA, b: GlobalB) -> Inst {
     // coordinates: small grids give duplicates and ties; TSPLIB may be shifted to negative values
     let g = [3u16, 10, 100, 100][gclass as usize];
     let off = if kind == 2 && neg == 0 { (g / 2) as i32 } else { 0 };
-    let coord = |xy: (u16, u16)| ((xy.0 % (g + 1)) as i32 - off, (xy.1 % (g + 1)) as i32 - off);
+    // the last class spreads the same grid over large magnitudes (pairs farther apart than 46341 units,
+    // where a squared distance no longer fits 32-bit integer arithmetic)
+    let mul = if gclass == 3 { 700 } else { 1 };
+    let coord = |xy: (u16, u16)| (((xy.0 % (g + 1)) as i32 - off) * mul, ((xy.1 % (g + 1)) as i32 - off) * mul);
     let depot_c = coord((dx, dy));
     // instance-level mix: forced coordinate copies never / rarely / often; windows all wide / mixed / all narrow
     let (dup_level, win_level) = (seed % 3, seed / 3 % 3);
